@@ -31,6 +31,16 @@ CLAIMED = {
   "Connections are brought to each phase (connecting, idle, half request, inside a fast or never-ending handler, response stuck in a 16-byte pipe, failing connect hook, late accept); oracle: Shutdown returns, Serve ends with ErrShutdown, listener closed, no handler running at or started after the return, a handled request is answered unless the grace timer fired, handlers are only cancelled after the timer fired or their client left, terminate hook exactly once per successful connect hook and never otherwise, no per-connection goroutine left at quiescence.",
   "Trusted: instrumenter + mc shim semantics (abstract timers), in-memory network incl. reset of the accept backlog on listener close. Bounds: <=2 connections, delay bound 3 (4 for the late-accept script) and preemption bound 1 (quick); delay 5 / preemption 3 under a deadline (thorough).",
   "DESIGN.md §2 E1, §3 C16"),
+ "C15": ("model_checking", "mcsched+seqmc",
+  "explicit exhaustive search over set/read/fail action sequences of a batch against a reference model, plus stateless model checking (controlled scheduler, all interleavings) of concurrent requests on the real BatchExecutor and through real server connections",
+  "All batches up to 3 items x 2 actions (45k request pairs, quick) / 4 items (thorough) are executed on the real executor and compared with a reference model, each followed by a probe request on the same connection context; 2-3 concurrent requests with handlers yielding before every placeholder action are explored over all interleavings.",
+  "Trusted: reference model (20 lines), instrumenter + mc shims, in-memory network. Bounds as stated in the evidence.",
+  "DESIGN.md §3 C15"),
+ "C20": ("model_checking", "mcsched+seqmc",
+  "stateless model checking of the real ttlv codec with its plan caches instrumented: all interleavings of 2-3 encode/decode threads from cold caches within a preemption bound; exhaustive enumeration of call histories; references from fresh child processes; separate free-running -race pass",
+  "The ttlv package is re-compiled with sync.Map operations as scheduling points and caches reset to cold before each execution; every result under any explored interleaving or history (all sequences of <=3/4 operations incl. reused cleared encoders, versions 1.0-1.4, binary/XML/JSON) must equal the result of the same call alone in a fresh process.",
+  "Trusted: instrumenter + mc shims; sequential consistency. The 'no data race' clause is only examined by a dynamic -race pass on finitely many free runs (supporting evidence).",
+  "DESIGN.md §3 C20"),
 }
 NOT_YET = "check not built yet in this session (planned, see DESIGN.md §3)"
 NA = {}
